@@ -142,11 +142,8 @@ func (o *Overloader) Update(newLimitConfig LimitConfig) {
 
 func (o *Overloader) updateConnLimiter(limitConfig *LimitConfig) {
 	o.limitConfigLock.Lock()
-	if limitConfig.MaxConn <= 0 {
-		o.connLimiter = nil
-		o.limitConfigLock.Unlock()
-		return
-	}
+	// The limiter is kept while the limit is switched off (MaxConn<=0), so that
+	// the sessions admitted meanwhile are still counted when a limit is set again.
 	if o.connLimiter == nil {
 		o.connLimiter = newConnLimiter(limitConfig.MaxConn)
 	} else if o.limitConfig.MaxConn != limitConfig.MaxConn {
